@@ -29,14 +29,6 @@ func (e *Engine) resetPoolModel() {
 	e.sinceCommit = false
 }
 
-// drainClients lets every client call return.
-func (e *Engine) drainClients() {
-	for _, f := range append([]*flight(nil), e.inflight...) {
-		e.W.Finish(f.sub)
-	}
-	e.collect()
-}
-
 // RestartNode restarts the node under test from img (nil: its current disk)
 // and checks the restart boundary of C07: the persistent spent set contains
 // every committed key image, and the fresh mempool refuses what the chain has
